@@ -129,7 +129,12 @@ RealSpell(o, style) ==
 AllSeps == { <<>>, <<32>>, <<10>>, <<13>>, <<13, 10>>, <<9>>, <<12>>, <<0>>, <<32, 32>>, <<10, 10>>,
              <<37, 99, 10>>, <<32, 37, 13, 10>>, <<37, 40, 13>> }          \* "%c LF", " % CR LF", "%( CR"
 FewSeps == { <<>>, <<32>>, <<37, 99, 10>> }
-SepsOf(mode) == IF mode = "all" THEN AllSeps ELSE IF mode = "few" THEN FewSeps ELSE { <<>>, <<10>> }
+\* white-space that every content-stream parser in the field accepts (SP TAB CR LF; no FF, NUL, comments)
+ContentSeps == { <<>>, <<32>>, <<10>>, <<13>>, <<13, 10>>, <<9>>, <<32, 32>> }
+ContentFewSeps == { <<>>, <<32>>, <<13, 10>> }
+SepsOf(mode) == IF mode = "all" THEN AllSeps ELSE IF mode = "few" THEN FewSeps
+                ELSE IF mode = "content" THEN ContentSeps ELSE IF mode = "contentfew" THEN ContentFewSeps
+                ELSE { <<>>, <<10>> }
 EOLs == { <<10>>, <<13>>, <<13, 10>> }
 
 \* A separator is required between two tokens when the second starts with a regular character and
